@@ -1,10 +1,8 @@
-(* Non-vacuity of the dynamic kernel's statements, and the witness that the proviso of the
-   stochastic membership theorem (Proofs/KernelDynRun.v, dstoch_run_member: posted events are
-   inert) cannot be dropped: the Gillespie loop calls an appended entry's event function on the
-   stored value without re-testing `e in l` (len(SingletonLocus) is always 1), so a posted event
-   that fires between selection and call and removes the element from the underlying locus
-   leads to a call on a non-member.  No shipped model posts such an event next to
-   SIR_VariableInfection; a user subclass with posted removals would. *)
+(* Non-vacuity of the dynamic kernel's statements.  The Gillespie loop guards the call of a selected
+   entry by `len(l) > 0`, evaluated after the posted events of the interval ran; since repair F15
+   (/repo 0d0f7b6) the length of a SingletonLocus is 0 once its element has left the locus it was
+   taken from, so a posted event that removes the selected element makes the entry be skipped
+   (dstoch_stale_skipped).  Before the repair the event function was entered on the non-member. *)
 From Coq Require Import List ZArith QArith Bool Arith.
 From EpyV Require Import Lib.Prelude Model.Kernel Model.KernelDyn Proofs.KernelMember Proofs.KernelDyn
   Proofs.KernelDynLoops Proofs.KernelDynRun.
@@ -32,17 +30,24 @@ Proof.
 Qed.
 
 (* Gillespie: the entry for element 1 is selected at time 0 for time 1; the event posted for 1/2
-   (program 1) runs first and removes element 1; the event function is then entered on a non-member *)
-Example dstoch_member_refuted :
+   (program 1) runs first and removes element 1; `len(l) > 0` then fails for the stale entry: no call,
+   no tap, not counted (the only event of the run is the posted one); before repair F15 the event
+   function was entered here on the non-member 1 *)
+Example dstoch_stale_skipped :
   let D := ex_D [] [APost (1#2) 1%nat] 1 in
   let r := dstoch_run D 10 10 [1#2; 1#4] [2] [] in
+  r_out r = [OPosted 0 (1 # 2); OHandler 1 (1 # 2) (1 # 2) (EN 0) None; OTap (1 # 2) 0 (NPost 1) (EN 0)]
+  /\ r_time r = 1 /\ r_events r = 1%nat /\ r_stuck r = false /\ loci (r_final r) = [[EN 2]].
+Proof. cbv zeta. repeat split; vm_compute; reflexivity. Qed.
+
+(* same run with the other entry selected (r2 = 3/4): element 2 is still a member and is fired *)
+Example dstoch_live_fired :
+  let D := ex_D [] [APost (1#2) 1%nat] 1 in
+  let r := dstoch_run D 10 10 [1#2; 3#4] [2] [] in
   r_out r = [OPosted 0 (1 # 2); OHandler 1 (1 # 2) (1 # 2) (EN 0) None; OTap (1 # 2) 0 (NPost 1) (EN 0);
-             OHandler 0 1 1 (EN 1) (Some false); OTap 1 0 (NEv 0 0) (EN 1)]
-  /\ r_stuck r = false
-  /\ (forall pi lc w d, In d (d_dyn D pi lc w) -> de_member d lc w = true).
-Proof.
-  cbv zeta. split; [vm_compute; reflexivity|]. split; [vm_compute; reflexivity|]. apply ex_sound.
-Qed.
+             OHandler 0 1 1 (EN 2) (Some true); OTap 1 0 (NEv 0 0) (EN 2)]
+  /\ r_events r = 2%nat /\ r_stuck r = false.
+Proof. cbv zeta. repeat split; vm_compute; reflexivity. Qed.
 
 (* synchronous: both entries are selected (p = 1); the event function of the first removes
    element 2; when the turn of the second comes its test fails: skipped, not counted *)
